@@ -62,6 +62,8 @@ theorem inv_setSess {w : World} {i : Nat} {s : Sess} (hw : Inv w)
 theorem inv_shared {w : World} (hw : Inv w) (ws : WS) (c : List (Root × Root)) :
     Inv { w with shared := ws, commits := c } := hw
 
+theorem inv_other {w : World} (hw : Inv w) (o : Root) : Inv { w with other := o } := hw
+
 theorem inv_startTx {w : World} (hw : Inv w) (i : Nat) (b : Bool) : Inv (startTx w i b) :=
   inv_setSess hw (fun _ => rfl)
 
@@ -122,6 +124,17 @@ theorem inv_step {w : World} (hw : Inv w) (i : Nat) (st : Stmt) : Inv (step w i 
     · split
       · exact inv_endTx (inv_shared h1 _ _) i true
       · exact inv_endTx h1 i false
+  | readO => simp only [step]; exact inv_endStmt (inv_ensureTx hw i) i
+  | writeO op =>
+    simp only [step]
+    have h1 := inv_ensureTx hw i
+    split
+    · split
+      · split
+        · exact inv_commitTx (inv_other h1 _) i true
+        · exact inv_endTx h1 i true
+      · exact inv_endTx h1 i true
+    · exact h1
   | setAuto b =>
     simp only [step]
     split
@@ -171,6 +184,31 @@ branch state of that moment: everything committed before is visible, nothing els
 theorem new_txn_snapshot_is_committed_state (w : World) (i : Nat) (h : (w.sess i).active = false) :
     ((ensureTx w i).sess i).snap = w.shared ∧ ((ensureTx w i).sess i).work = w.shared.working := by
   simp [ensureTx, h, startTx]
+
+/-- `all_databases_snapshotted_at_start`: a new transaction pins EVERY database of the provider at the
+state of that moment — also a database the session has never referenced (`otherdb`). -/
+theorem all_databases_snapshotted_at_start (w : World) (i : Nat) (h : (w.sess i).active = false) :
+    ((ensureTx w i).sess i).snapO = w.other ∧ ((ensureTx w i).sess i).workO = w.other := by
+  simp [ensureTx, h, startTx]
+
+/-- what `SELECT * FROM otherdb.t` returns -/
+theorem readO_returns_workO (w : World) (i : Nat) :
+    (step w i .readO).2.2 = some ((ensureTx w i).sess i).workO := rfl
+
+/-- `other_database_repeatable_read`: inside an open transaction, a read of the other database —
+the first one or any later one — returns the session's view pinned at transaction start, whatever
+other sessions committed to that database in between. -/
+theorem other_database_repeatable_read (i : Nat) (sched : List (Nat × Stmt)) (w : World)
+    (h : OthersOnly i sched) (ha : (w.sess i).active = true) :
+    (step (run w sched) i .readO).2.2 = some (w.sess i).workO := by
+  rw [readO_returns_workO]
+  have hs := snapshot_stable i sched w h
+  rw [ensureTx_of_active _ _ (by rw [hs]; exact ha), hs]
+
+/-- a transaction opened by BEGIN that then only reads sees, in the other database, exactly the state
+at BEGIN although another session's autocommit write to it was acknowledged in between -/
+example : (step (run World.init [(0, .begin), (1, .writeO (.ins 1 [none]))]) 0 .readO).2.2 = some [] := by decide
+example : (run World.init [(0, .begin), (1, .writeO (.ins 1 [none]))]).other = [(1, [none])] := by decide
 
 /-- `visibility` (2): BEGIN commits the open transaction and the new transaction's snapshot is the
 branch state after that commit -/
